@@ -33,6 +33,9 @@ import (
 func init() {
 	streams["hist"] = func(o *Out, rng *rand.Rand, thorough bool) { runHist(o, thorough, false) }
 	streams["histuc"] = func(o *Out, rng *rand.Rand, thorough bool) { runHist(o, thorough, true) }
+	// histw: the same histories on instances biased to what the temporal estimates have to get right
+	// (tight multi-windows, stop and vehicle wait limits, non-metric and time-dependent matrices)
+	streams["histw"] = func(o *Out, rng *rand.Rand, thorough bool) { waitBias = true; runHist(o, thorough, false) }
 }
 
 // ------------------------------------------------------------------------------ user constraint
@@ -330,6 +333,8 @@ func unitRole(u nextroute.SolutionPlanUnit) string {
 	return kind
 }
 
+var waitBias bool
+
 func runHist(o *Out, thorough bool, withUC bool) {
 	o.Meta.Rule = "a case = generated instance × random operation history (best move / explicit move / un-plan of a " +
 		"root unit or of a member / vehicle un-plan / copy / check); non-trivial = a history in which at least one " +
@@ -351,6 +356,10 @@ func runHist(o *Out, thorough bool, withUC bool) {
 		if ci%3 == 1 {
 			p.Tight = true
 		}
+		if waitBias {
+			p = Profile{MaxStops: 4 + rng.Intn(5), MaxVehicles: 1 + rng.Intn(2), Windows: true, Waits: true, NonMetric: true,
+				TD: true, Limits: true, Tight: ci%2 == 0, ForceWindows: true}
+		}
 		c := genCase(rng, p)
 		hc := &histCase{Case: c, Seed: rng.Int63()}
 		if withUC {
@@ -358,6 +367,10 @@ func runHist(o *Out, thorough bool, withUC bool) {
 		}
 		if replayFile != "" {
 			hc = loadReplayHist(replayFile)
+			if hc.Case == nil {
+				o.Count("bad-replay-file")
+				return
+			}
 			c = hc.Case
 			ncases = 1
 		}
